@@ -134,6 +134,10 @@ sim::Json generate(const std::string& tier, uint64_t seed, uint64_t index) {
     pv.set("mode", (long)rng.range(1, 2));     // 1: written and loaded only; 2: also solved and its solution read
     sc.set("prev", pv);
   }
+  // the one-call entry Solve(model, solver, options) / NLW2_SolveNLModel_C instead of LoadModel + Solve + ReadSolution
+  sc.set("one_call", rng.chance(0.3));
+  // fault: the solver command for the caller's model fails before anything is written (exit code, system() failure, killed)
+  if (rng.chance(0.1)) sc.set("solver_fails", (long)rng.range(1, 3));
   sim::Json script = sim::Json::object();
   static const int codes[] = {0, 0, 0, 100, 200, 400};
   script.set("status", codes[rng.below(6)]);
@@ -165,8 +169,20 @@ double eval(mp::NumericExpr e, const std::vector<double>& x) {
 // sums are compared relative to the magnitude of their terms (cancellation between huge terms legitimately loses the small ones)
 bool near(double a, double b, double scale = 0) { return a == b || std::fabs(a - b) <= 1e-9 * std::max(std::max(1.0, scale), std::max(std::fabs(a), std::fabs(b))); }
 
+// fault: the run of the solver for the caller's model fails without a solution being written
+// (1: the command exits with code 3 at once, 2: system() itself fails, 3: the process is killed by signal 9)
+int g_sys_fail = 0, g_sys_fail_at = 0, g_sys_calls = 0;
+
 int driver_via_system(const char* cmd) {
   // "simdrv <stub> -AMPL <opts...>"  -> in-process driver run
+  {
+    int idx = g_sys_calls++;
+    if (g_sys_fail && idx == g_sys_fail_at) {
+      sim::g.event("SYSTEM fault " + std::to_string(g_sys_fail));
+      ++sim::g.fired["solver_run_fails"];
+      return g_sys_fail == 1 ? 3 << 8 : g_sys_fail == 2 ? -1 : 9;
+    }
+  }
   std::vector<std::string> tok;
   std::string cur;
   for (const char* p = cmd; ; ++p) { if (*p == ' ' || !*p) { if (!cur.empty()) tok.push_back(cur); cur.clear(); if (!*p) break; } else cur += *p; }
@@ -243,6 +259,9 @@ sim::RunResult run(const sim::Json& sc) {
   g_stub.clear();
   g_script = sc["script"];
   g_dual_mode = (int)g_script["dual_mode"].as_int(0);
+  g_sys_calls = 0; g_sys_fail = (int)sc["solver_fails"].as_int(0);
+  g_sys_fail_at = sc.has("prev") && sc["prev"]["mode"].as_int() == 2 ? 1 : 0;
+  const bool one_call = sc["one_call"].as_bool();
   sim::system_hook = driver_via_system;
   sim::capture_begin();
   static sigjmp_buf jb;
@@ -253,6 +272,7 @@ sim::RunResult run(const sim::Json& sc) {
   std::vector<int> vperm, vperm_inv;
   mp::NLSolution sol;
   bool solved = false;
+  double one_call_obj = 0;
   std::string exc;
   if (sigsetjmp(jb, 1) == 0) {
     try {
@@ -456,6 +476,10 @@ sim::RunResult run(const sim::Json& sc) {
           g_stub.clear();
         }
         if (!err_b.empty()) {}
+        else if (one_call) {
+          sol = nls.Solve(mdl, "simdrv", drv_opts); solved = true; one_call_obj = sol.obj_val_;
+          if (!sol) err_b = std::string("Solve(model): ") + nls.GetErrorMessage();
+        }
         else if (!nls.LoadModel(static_cast<const mp::NLModel&>(mdl))) err_b = std::string("LoadModel: ") + nls.GetErrorMessage();
         else if (!nls.Solve("simdrv", drv_opts)) err_b = std::string("Solve: ") + nls.GetErrorMessage();
         else { sol = nls.ReadSolution(); solved = true; if (!sol) err_b = std::string("ReadSolution: ") + nls.GetErrorMessage(); }
@@ -470,11 +494,11 @@ sim::RunResult run(const sim::Json& sc) {
           g_stub.clear();
         }
         if (!err_b.empty()) {}
-        else if (!NLW2_LoadNLModel_C(&cs, &cm)) err_b = std::string("LoadModel: ") + NLW2_GetErrorMessage_C(&cs);
-        else if (!NLW2_RunSolver_C(&cs, "simdrv", drv_opts)) err_b = std::string("Solve: ") + NLW2_GetErrorMessage_C(&cs);
+        else if (!one_call && !NLW2_LoadNLModel_C(&cs, &cm)) err_b = std::string("LoadModel: ") + NLW2_GetErrorMessage_C(&cs);
+        else if (!one_call && !NLW2_RunSolver_C(&cs, "simdrv", drv_opts)) err_b = std::string("Solve: ") + NLW2_GetErrorMessage_C(&cs);
         else {
-          NLW2_NLSolution_C cs_sol = NLW2_ReadSolution_C(&cs);
-          solved = true;
+          NLW2_NLSolution_C cs_sol = one_call ? NLW2_SolveNLModel_C(&cs, &cm, "simdrv", drv_opts) : NLW2_ReadSolution_C(&cs);
+          solved = true; one_call_obj = cs_sol.obj_val_;
           sol.solve_result_ = cs_sol.solve_result_;
           sol.nbs_ = cs_sol.nbs_;
           sol.solve_message_ = cs_sol.solve_message_ ? cs_sol.solve_message_ : "";
@@ -484,7 +508,7 @@ sim::RunResult run(const sim::Json& sc) {
             const NLW2_NLSuffix_C& sf = cs_sol.suffixes_[k];
             sol.suffixes_.Add(mp::NLSuffix{sf.name_, sf.table_ ? sf.table_ : "", sf.kind_, std::vector<double>(sf.values_, sf.values_ + sf.numval_)});
           }
-          if (!sol) err_b = std::string("ReadSolution: ") + NLW2_GetErrorMessage_C(&cs);
+          if (!sol) err_b = std::string(one_call ? "Solve(model): " : "ReadSolution: ") + NLW2_GetErrorMessage_C(&cs);
         }
         NLW2_DestroyNLSolver_C(&cs);
         NLW2_DestroyNLUtils_C_Default(&cu);
@@ -514,6 +538,14 @@ sim::RunResult run(const sim::Json& sc) {
   if (exited) flag("EXITED", "client", "simulated process exit inside the loop");
   if (!err_a.empty()) flag("WRITE_FAILED", "nl", err_a);
   const StubModel& sm = g_stub;
+  if (g_sys_fail && g_sys_calls > g_sys_fail_at) {
+    // the solver never ran for the caller's model: the caller is told so and receives no solution,
+    // whatever an earlier solve left at the stub
+    r.stats.set("solver_run_failed", 1);
+    if (viol.empty() && err_b.empty()) flag("FAILED_RUN_NOT_REPORTED", one_call ? "one-call" : "stepwise", "the solver command failed and no solution file was written for this model, but the caller was given a result: solve_result " + std::to_string(sol.solve_result_) + ", " + std::to_string(sol.x_.size()) + " primal values");
+    if (viol.empty() && (sol || !sol.x_.empty())) flag("STALE_SOLUTION", one_call ? "one-call" : "stepwise", "the solver command failed, yet a solution with " + std::to_string(sol.x_.size()) + " primal values came back (" + err_b.substr(0, 120) + ")");
+    err_b.clear(); solved = false;
+  }
   if (viol.empty() && !err_b.empty()) flag("LOOP_FAILED", err_b.substr(0, err_b.find(':')), err_b.substr(0, 300));
   if (viol.empty() && solved && sol) {
     long status = sc["script"]["status"].as_int();
@@ -530,6 +562,8 @@ sim::RunResult run(const sim::Json& sc) {
       m2.SetLinearObjective(NLW2_ObjSenseMinimize, c0, have_c ? c.data() : nullptr);
       if (quad) m2.SetHessian((NLW2_HessianFormat)sc["qformat"].as_int(), {n, NLW2_MatrixFormatIrrelevant, qindex.size(), qstart.data(), qindex.data(), qvalue.data()});
       if (have_c && !near(m2.ComputeObjValue(sol.x_.data()), ref_obj(sol.x_), ref_scale(sol.x_))) flag("WRONG_OBJ_RECOMPUTED", "solution", "objective recomputed from the returned solution differs from the reference");
+      // the one-call entry delivers that value itself
+      if (one_call && have_c) { r.stats.set("one_call", 1); if (!near(one_call_obj, ref_obj(sol.x_), ref_scale(sol.x_))) flag("WRONG_OBJ_RECOMPUTED", "one-call", "Solve(model, ...) returned obj_val_ " + gen::fmt_double(one_call_obj) + ", the objective at the returned solution is " + gen::fmt_double(ref_obj(sol.x_))); }
     }
     // duals by content matching of rows
     if (viol.empty() && !sol.y_.empty()) {
